@@ -20,7 +20,8 @@ Definition dummy_cfg : band_cfg :=
   mkCfg "" false false KEU868 false 0 "" (mkDefaults 0 0 0 0 0 0)
         (mkTables false 0 0 [] [] [] [] [] []).
 
-Definition cfg_at (i : N) : band_cfg := nth (N.to_nat i) band_configs dummy_cfg.
+(* index into the 56 common configurations followed by the 40 obtained through deprecated names *)
+Definition cfg_at (i : N) : band_cfg := nth (N.to_nat i) (band_configs ++ band_alias_configs) dummy_cfg.
 
 Inductive case :=
 (* configuration index <-> identity (keeps harness and dumper enumeration in step);
@@ -39,6 +40,8 @@ Inductive case :=
    o_idx = GetRX1ChannelIndexForUplinkChannelIndex(ch), o_down = GetDownlinkChannel(that
    index).Frequency (Err when o_idx is not a value), o_freq = GetRX1FrequencyForUplinkFrequency(f) *)
 | CRx1ChHist (i : N) (ops : list chan_op) (errs : list bool) (n ch f : Z) (o_idx o_down o_freq : outcome Z)
+(* band.GetConfig(name, false, no limit) succeeded (ok = true) or returned an error *)
+| CGetConfig (name : string) (ok : bool)
 (* GetRX1FrequencyForUplinkFrequency on an arbitrary frequency *)
 | CRx1Freq (i : N) (f : Z) (o : outcome Z)
 (* GetPingSlotFrequency(devaddr, beacon time in ns) *)
@@ -55,7 +58,7 @@ Definition check (c : case) : N :=
     code (String.eqb (c_name cfg) name && Bool.eqb (c_rep cfg) rep && Bool.eqb (c_dwell cfg) dwell
           && String.eqb (c_bname cfg) bname)
          (* the band object answers to the name it was asked for, also under the deprecated alias *)
-         (String.eqb bname name && (String.eqb alias "" || String.eqb alias name)
+         (String.eqb bname (common_name name) && (String.eqb alias "" || String.eqb alias name)
           && match region_of name with Some _ => true | None => false end)
   | CRx1Dr i dr off prev obs =>
     let cfg := cfg_at i in
@@ -99,6 +102,10 @@ Definition check (c : case) : N :=
           | Some reg => rx1_channel_obs_ok reg ch f o_idx o_down o_freq
           | None => false
           end)
+  | CGetConfig name ok =>
+    (* model: the names of the dumped objects; spec: the names of the regions incl. deprecated ones *)
+    code (Bool.eqb (existsb (fun c => String.eqb (c_name c) name) (band_configs ++ band_alias_configs)) ok)
+         (Bool.eqb (match region_of name with Some _ => true | None => false end) ok)
   | CRx1Freq i f o =>
     code (oz_eqb (get_rx1_frequency (cfg_at i) f) o) (negb (is_panic o))
   | CPing i devaddr beacon o =>
